@@ -112,14 +112,16 @@ def classify(results, metas, wd, rep, dist, known_keys=()):
             if len(thm) == len(pss):
                 for t, o in zip(thm, pss):
                     dist["sample_seeks"] = dist.get("sample_seeks", 0) + 1
-                    if t[2] == "1":
-                        half = t[0] == "thmh"      # C20_half_rate_seek_checked: position in (target - 2, target]
+                    if t[2] in ("1", "2"):
+                        half = t[0] == "thmh"
+                        if t[2] == "2":      # only C07_pcm_seek_checked_to_link_end applies (run closed by the end-of-stream packet)
+                            dist["sample_seeks_link_end_theorem_applies"] = dist.get("sample_seeks_link_end_theorem_applies", 0) + 1      # C20_half_rate_seek_checked: position in (target - 2, target]
                         dist["sample_seeks_theorem_applies" + ("_half_rate" if half else "")] = dist.get("sample_seeks_theorem_applies" + ("_half_rate" if half else ""), 0) + 1
                         # a time seek carries the converted sample target as a fourth field
                         tgt = int(t[3]) if t[1].startswith("ts:") else int(t[1][3:])
                         landed_ok = (tgt - 2 < int(o[5]) <= tgt) if half else (int(o[5]) == tgt)
                         if t[1] != o[1] or o[3] != "0" or not landed_ok:
-                            bad_prop.append({"kind": "the hypotheses of theorem C07_pcm_seek_checked / C20_half_rate_seek_checked hold for %s (intact run reaching the target) "
+                            bad_prop.append({"kind": "the hypotheses of theorem C07_pcm_seek_checked / C07_pcm_seek_checked_to_link_end / C20_half_rate_seek_checked hold for %s (intact run reaching the target) "
                                                      "but the implementation answers: %s" % (t[1], " ".join(o[:8])), "case": k, "meta": m, "cases_file": cfile})
             for l in ops:
                 t = l.split()[1][:2]
